@@ -55,6 +55,15 @@ def lib_shapes():
             ("v2", F.mass_action_1s, ["d3", "k2"], {"x": 1}),
         ],
     ))
+    S.append(dict(
+        name="sign_guards",
+        params=[("dg", None), ("k", None)],
+        vars=[("x", None), ("y", None)],
+        reactions=[
+            ("v1", R.guard_param, ["x", "dg", "k"], {"x": -1, "y": 1}),
+            ("v2", R.guard_state, ["y", "k"], {"y": -1}),
+        ],
+    ))
     return S
 
 
@@ -229,6 +238,21 @@ class JacCallback(Scenario):
                 elif op == "S":
                     sim.simulate(t_end, steps=1)
                     t_end += 1.0
+                elif op == "UR":
+                    # the first rate law is replaced by one that cannot be translated (a loop)
+                    rn = self.spec["reactions"][0][0]
+                    pn = [n for n, ia in self.spec["params"] if ia is None]
+                    m.update_reaction(rn, fn=R.uses_loop, args=[names[0], pn[0]])
+                elif op == "CL":
+                    sim.clear_results()
+                elif op == "UV":
+                    sim.update_variable(names[0], ctx.real(f"uv{i}"))
+        if any(op == "UR" for op in self.ops):
+            try:
+                to_symbolic_model(m)
+                convertible = True
+            except Exception:  # noqa: BLE001
+                convertible = False
         with ctx.impl("simulate"):
             sim.simulate(t_end, steps=1)
         ctx.true("the integrator was called", len(spi.calls) >= 1)
@@ -279,15 +303,18 @@ def scenarios(tier, seed):
     lib = library_models()
     scs += [Sym(s_) for s_ in (lib if tier != "quick" else [l_ for l_ in lib if l_["name"].startswith("libfn/") or l_["name"].endswith("/rev")][::2])]
     if tier != "quick":
-        # parameter-dependent coefficients are an open finding (probed by named_coef / static_derived_coef)
-        scs += [Sym(g) for g in M.grammar_shapes(with_surrogates=False) if "/named/" not in g["name"] and "/param/" not in g["name"]]
-    jac_specs = [s for s in base if s["name"] in ("chain2", "mm_moiety", "lib_mm_rev", "untouched", "time_dep", "frac_coef")]
+        scs += [Sym(g) for g in M.grammar_shapes(with_surrogates=False)]
+    jac_specs = [s for s in base if s["name"] in ("chain2", "mm_moiety", "lib_mm_rev", "untouched", "time_dep", "frac_coef", "sign_guards")]
     for s in jac_specs:
         for method in ("LSODA", "BDF", "Radau"):
             for ops in ((), ("UP",), ("S", "UPS"), ("SC", "S")):
                 if tier == "quick" and method != "Radau" and ops not in ((), ("UP",)):
                     continue
                 scs.append(JacCallback(s, method, ops))
+        if s["name"] in ("chain2", "lib_mm_rev"):
+            # the model stops being translatable after the simulator was built: the next integrator must not get the old Jacobian
+            scs.append(JacCallback(s, "Radau", ("UR", "CL")))
+            scs.append(JacCallback(s, "BDF", ("S", "UR", "UV")))
         scs.append(JacCallback(s, "Radau", (), y0_order="reversed"))
         scs.append(JacCallback(s, "BDF", ("UP",), y0_order="reversed"))
     return scs
